@@ -31,6 +31,7 @@ func init() {
 			{Name: "totype-chan-case-removed", File: "cl/func_type_and_var.go", Old: "\tcase *ast.ChanType:\n\t\treturn toChanType(ctx, v)\n", New: "", Expect: "handler/toType:ChanType"},
 			{Name: "binary-operands-swapped", File: e, Old: "\tcompileExpr(ctx, v.X)\n\tcompileExpr(ctx, v.Y)\n\tctx.cb.BinaryOp(gotoken.Token(v.Op), v)", New: "\tcompileExpr(ctx, v.Y)\n\tcompileExpr(ctx, v.X)\n\tctx.cb.BinaryOp(gotoken.Token(v.Op), v)", Expect: "operand-order/compileBinaryExpr"},
 			{Name: "slice-high-low-swapped", File: e, Old: "\tcompileExprOrNone(ctx, v.Low)\n\tcompileExprOrNone(ctx, v.High)\n", New: "\tcompileExprOrNone(ctx, v.High)\n\tcompileExprOrNone(ctx, v.Low)\n", Expect: "operand-order/compileSliceExpr"},
+			{Name: "comma-ok-leaks-to-operand", File: e, Old: "\tcompileExpr(ctx, v.X, xFlags...)\n", New: "\tcompileExpr(ctx, v.X, inFlags...)\n", Expect: "two-value-scope/compileIndexExpr"},
 			{Name: "token-renumbered", File: "token/token.go", Old: "\tADD // +\n\tSUB // -\n", New: "\tSUB // -\n\tADD // +\n", Expect: "token-value/ADD"},
 		},
 	})
@@ -267,6 +268,63 @@ func runC01(c *core.Check) {
 		c.Decide(ok, "operand-order", fn, fd.Pos(), strings.Join(want, " → "), "cl."+fn+": "+detail+" — the operands of a non-commutative operation (or the order of their side effects) are swapped")
 	}
 	c.Floor("operand-order", 7)
+
+	// ---------- (4) the comma-ok request applies to one node only
+	// `v, ok := x[i]` / `x.(T)` / `<-ch` hand a two-value flag to the routine that lowers that node; a routine that
+	// consumes the flag itself must not pass the same flags on to an operand (the operand would be asked for two values too)
+	nTwo := 0
+	for _, fd := range core.AllFuncDecls(pk) {
+		if fd.Body == nil || fd.Type.Params == nil {
+			continue
+		}
+		var flags types.Object
+		for _, f := range fd.Type.Params.List {
+			if _, ok := f.Type.(*ast.Ellipsis); ok && len(f.Names) == 1 && f.Names[0].Name == "inFlags" {
+				flags = info.Defs[f.Names[0]]
+			}
+		}
+		if flags == nil {
+			continue
+		}
+		consumes := false
+		var forwards []*ast.CallExpr
+		ast.Inspect(fd.Body, func(n ast.Node) bool {
+			call, ok := n.(*ast.CallExpr)
+			if !ok {
+				return true
+			}
+			if fn, ok := calleeObj(info, call).(*types.Func); ok {
+				if fn.Name() == "twoValue" && len(call.Args) == 1 && identObj(info, call.Args[0]) == flags {
+					consumes = true
+				}
+				if strings.HasPrefix(fn.Name(), "compileExpr") && call.Ellipsis.IsValid() && len(call.Args) >= 3 && identObj(info, call.Args[len(call.Args)-1]) == flags {
+					forwards = append(forwards, call)
+				}
+			}
+			return true
+		})
+		if !consumes {
+			continue
+		}
+		nTwo++
+		name := core.FuncName(fd)
+		if len(forwards) == 0 {
+			c.Ok("two-value-scope", name, fd.Pos(), "consumes the comma-ok request and does not forward it")
+			continue
+		}
+		if why, ok := c01TwoValueForward[name]; ok {
+			c.Note("two-value-scope-reviewed", name, forwards[0].Pos(), why)
+			continue
+		}
+		c.Bad("two-value-scope", name, forwards[0].Pos(), "cl."+name+" uses twoValue(inFlags) for its own node and also passes inFlags on to the operand "+core.ExprStr(forwards[0].Args[1])+": in `v, ok := a[i][j]` the inner index is asked for two values and the statement fails to compile (`type (T, bool) does not support indexing`)")
+	}
+	c.Analysed("routines_consuming_two_value", nTwo)
+}
+
+// c01TwoValueForward: routines that consume the comma-ok flag and still forward the flags, reviewed.
+var c01TwoValueForward = map[string]string{
+	"compileExpr":          "the dispatcher: it hands the flags to exactly one handler per node kind (ParenExpr forwards them to its operand by design: `v, ok := (m[k])`)",
+	"compileIndexListExpr": "generic instantiation f[T1, T2]: a comma-ok request cannot reach it in a well-typed program (an instantiated function is not a map index); X is a function name, for which the flag is ignored",
 }
 
 // c01OperandOrder: the fields of the node parameter in the order they are first handed to a compile* routine.
